@@ -76,7 +76,7 @@ def correspondence(ctx):
     import gstools as gs
     from gstools.tools import geometric as G
     rng = np.random.RandomState(ctx.seed + 1301)
-    n_rounds = ctx.scale(40, 500)
+    n_rounds = ctx.scale(150, 2000)
     ops, checks = [], []       # checks[i] = (kind, real_value, tol, scale, case, nontrivial)
     dist = {}
     discarded = 0
@@ -264,7 +264,7 @@ def search(ctx, deep=False):
     import gstools as gs
     from gstools.tools import geometric as G
     rng = np.random.RandomState(ctx.seed + 1302)
-    n = ctx.scale(25, 300) * (3 if deep else 1)
+    n = ctx.scale(120, 1500) * (3 if deep else 1)
     viol, ev = [], 0
     summary = []
 
